@@ -1,0 +1,22 @@
+//go:build verif
+
+// Client-side (ASSUMED) contract of the in-process store internal/memory, as seen by this package.
+// The functions themselves are verified in /repo/internal/memory/zz_contracts_verif.go against the real
+// map; this copy restates that contract over a ghost map (the engine loads, for a package, only the
+// dependency specs and the package's own contract files).
+
+package csrf
+
+// Same ghost model as fiber.Storage (fiber_storage.spec), but no faults: memHas[store][key].
+// Entries may expire between calls (observed at Get). The stored value is not modelled.
+//@ ghost memHas map[ref]map[string]bool
+//@ func @memory.(*Storage).Get(s, key) assumed
+//@   modifies memHas
+//@   ensures only-expiry: forallI(r, forallS(k, memHas[r][k] ==> old(memHas[r][k])))
+//@   ensures (result != nil) <==> memHas[s][key]
+//@ func @memory.(*Storage).Set(s, key, val, ttl) assumed
+//@   modifies memHas
+//@   ensures memHas == old(memHas)[s := old(memHas)[s][key := true]]
+//@ func @memory.(*Storage).Delete(s, key) assumed
+//@   modifies memHas
+//@   ensures memHas == old(memHas)[s := old(memHas)[s][key := false]]
